@@ -75,6 +75,23 @@ Theorem tie_C18_sign :
   /\ handlers_exit_nonzero skel_sign_load_metadata = true.
 Proof. vm_compute. repeat split; reflexivity. Qed.
 
+(** library side of "exit 0 exactly when the link file was written": record start / record stop /
+    mock return normally only after the dump of the (preliminary) link returned and through no
+    handler; record stop removes the preliminary link only after the final one was dumped, and that
+    removal is its last effect.  (in_toto_run writes only when a signing argument is given — its
+    `if signer` is re-assigned, hence not a stable condition; the CLI matrix covers it.) *)
+Definition A_lib_dump := s "link_metadata.dump".
+Definition A_rm_unfinished := s "os.remove(unfinished_fn)".
+Theorem tie_C18_library_writes :
+  exit0_only_after [] [] skel_in_toto_record_start A_lib_dump = true
+  /\ exit0_only_after [] [] skel_in_toto_record_stop A_lib_dump = true
+  /\ exit0_only_after [] [] skel_in_toto_mock A_lib_dump = true
+  /\ precedes skel_in_toto_record_stop A_lib_dump A_rm_unfinished = true
+  /\ last_effect skel_in_toto_record_stop A_rm_unfinished = true
+  /\ last_effect skel_in_toto_record_start A_lib_dump = true
+  /\ has_call skel_in_toto_run A_lib_dump = true.
+Proof. vm_compute. repeat split; reflexivity. Qed.
+
 (** C18 for today's in-toto-verify: status 0 => in_toto_verify returned normally and no except
     clause ran; in_toto_verify raised => status 1 *)
 Theorem C18_verify_today : forall rho t o,
